@@ -129,5 +129,33 @@ theorem dead_all_timeouts (seq : Nat) : ∀ (es : List Ev) (r tx : Nat), (go seq
 
 #print axioms dead_all_timeouts
 
+theorem goU8_eq (seq : Nat) : ∀ (es : List Ev) (r : BitVec 8) (tx : Nat), goU8 seq r tx es = go seq r.toNat tx es
+  | [], r, tx => by simp [goU8, go]
+  | .timeout :: es, r, tx => by
+    unfold goU8 go
+    by_cases h : r > 0#8
+    · have h1 : r.toNat > 0 := by simpa [BitVec.lt_def] using h
+      have h2 : (r - 1#8).toNat = r.toNat - 1 := by
+        rw [BitVec.toNat_sub]; simp; omega
+      simp only [h, h1, if_true]
+      rw [goU8_eq seq es, h2]
+    · have h1 : ¬ r.toNat > 0 := by simpa [BitVec.lt_def] using h
+      simp only [h, h1, if_false]
+  | .resp s :: es, r, tx => by
+    unfold goU8 go
+    split
+    · rfl
+    · exact goU8_eq seq es r tx
+  | .shutdown :: es, r, tx => by simp [goU8, go]
+
+/-- at the code's width the loop is the modelled one: for every configured budget 0..255 -/
+theorem sendU8_eq (seq : Nat) (N : BitVec 8) (es : List Ev) : sendU8 seq N es = send seq N.toNat es := goU8_eq seq es N 1
+
+theorem tx_bound_u8 (seq : Nat) (N : BitVec 8) (es : List Ev) : (sendU8 seq N es).1 ≤ 1 + N.toNat ∧ (sendU8 seq N es).1 ≤ 256 := by
+  rw [sendU8_eq]
+  have := tx_bound seq N.toNat es
+  have := N.isLt
+  omega
+
 end Retry
 
